@@ -10,7 +10,7 @@ from hypothesis import strategies as st
 
 from vlib.runner import norm_message
 
-from cutplace import interface, sql
+from cutplace import checks, interface, sql
 
 PROPERTY_ID = "C19"
 RULE = (
@@ -353,6 +353,9 @@ def _check_built_by_program(sub, case, cid, table, dialect, dialect_name, column
             if type(field).__name__ in ("TextFieldFormat", "PatternFieldFormat"):
                 arguments.append(["n/a", "", "?", None][number % 4])
             built.add_field_format(type(field)(*arguments))
+        for row in case.get("checks", []):
+            check_class = {"IsUnique": checks.IsUniqueCheck, "DistinctCount": checks.DistinctCountCheck}[row[2]]
+            built.add_check(check_class(row[1], row[3], built.field_names))
         statement = sql.SqlFactory(built, table, dialect).create_table_statement()
         _, built_columns = parse_create_table(statement)
     except Exception as error:
